@@ -226,6 +226,10 @@ pub fn run_built(sc: Scenario, built: Result<Tracer, String>, tape: Tape, opts: 
             IN_SIM.with(|c| c.set(true));
             PANIC_INFO.with(|p| *p.borrow_mut() = None);
             let res = catch_unwind(AssertUnwindSafe(|| {
+                if let Some(cfg) = sc.synth {
+                    synthetic_rounds(&tracer, &sc, cfg, &rounds, opts);
+                    return Ok(());
+                }
                 tracer.verif_run_with::<SimSocket, SimPlatform, _>(|round| {
                     let t_cb = clock::now();
                     let reads_cb = clock::reads();
@@ -299,5 +303,172 @@ pub fn run_built(sc: Scenario, built: Result<Tracer, String>, tape: Tape, opts: 
         tape_record,
         calls_total,
         source_addr,
+    }
+}
+
+/// Synthetic round source: draw `cfg.rounds` rounds from the tape and hand each to the real
+/// round handler of the tracer (the strategy, channel and network do not run).
+///
+/// The rounds keep to the shape the strategy can publish: positions carry consecutive
+/// time-to-live values from first-ttl, a skipped slot (abandoned TCP attempt) precedes the
+/// probe that was re-issued with the same ttl, and the round's path length is the largest
+/// ttl that was answered (zero when nothing was).
+fn synthetic_rounds(tracer: &Tracer, sc: &Scenario, cfg: crate::scenario::SynthCfg, rounds: &RefCell<Vec<RoundRec>>, opts: RunOpts) {
+    use crate::scenario::router_addr;
+    use crate::world::with_world;
+    use std::time::{Duration, UNIX_EPOCH};
+    use trippy_core::verif::{Checksum, IcmpPacketCode, ProbeFailed};
+    use trippy_core::{Flags, IcmpPacketType, Probe, ProbeComplete, Round, RoundId, Sequence, TimeToLive, TraceId, TypeOfService};
+    let t = &sc.tracer;
+    let base = UNIX_EPOCH + Duration::from_nanos(clock::EPOCH_NS);
+    let mut seq: u16 = t.initial_seq;
+    let mut len_now: u32 = 0;
+    for k in 0..cfg.rounds {
+        let probes: Vec<ProbeStatus> = with_world(|w| {
+            let tape = &mut w.tape;
+            let span = u32::from(t.max_ttl - t.first_ttl) + 1;
+            let cap = u32::from(cfg.max_len).min(span).max(1);
+            // the path length moves slowly; sometimes it shrinks or jumps
+            if len_now == 0 || tape.chance(150) {
+                len_now = 1 + tape.draw(cap);
+            }
+            let mut len = len_now;
+            if tape.chance(cfg.shrink_pm) {
+                len = 1 + tape.draw(len);
+            }
+            let mut out = Vec::new();
+            for i in 0..len {
+                let ttl = t.first_ttl + i as u8;
+                while tape.chance(cfg.skipped_pm) && out.len() < 500 {
+                    out.push(ProbeStatus::Skipped);
+                    seq = seq.wrapping_add(1);
+                }
+                let sent = base + Duration::from_secs(u64::from(k)) + Duration::from_micros(u64::from(i) * 37);
+                let (sp, dp) = (t.trace_id, seq);
+                let flags = Flags::empty();
+                match tape.weighted(&[cfg.w_complete, cfg.w_awaited, cfg.w_failed]) {
+                    0 => {
+                        let rtt_ns: u64 = match cfg.rtt_regime {
+                            0 => u64::from(tape.draw(1000)),
+                            1 => 10_000 + u64::from(tape.skewed(300_000)) * 1000,
+                            2 => match tape.weighted(&[2, 2, 2, 6]) {
+                                0 => 0,
+                                1 => 1,
+                                2 => 10_000_000_000,
+                                _ => u64::from(tape.draw(1_000_000)) * u64::from(1 + tape.draw(10_000)),
+                            },
+                            _ => 5_000_000,
+                        };
+                        let variant = if cfg.addr_pool > 1 { tape.draw(u32::from(cfg.addr_pool)) } else { 0 };
+                        let host = router_addr(t.v6, u32::from(ttl), 0, variant);
+                        let icmp_packet_type = match tape.weighted(&[6, 2, 1, 1]) {
+                            0 => IcmpPacketType::TimeExceeded(IcmpPacketCode(0)),
+                            1 => IcmpPacketType::EchoReply(IcmpPacketCode(0)),
+                            2 => IcmpPacketType::Unreachable(IcmpPacketCode(tape.draw(16) as u8)),
+                            _ => IcmpPacketType::NotApplicable,
+                        };
+                        let csum = if tape.chance(300) {
+                            let e = tape.draw(65536) as u16;
+                            let a = if tape.chance(600) { e } else { tape.draw(65536) as u16 };
+                            Some((e, a))
+                        } else {
+                            None
+                        };
+                        out.push(ProbeStatus::Complete(ProbeComplete {
+                            sequence: Sequence(seq),
+                            identifier: TraceId(t.trace_id),
+                            src_port: Port(sp),
+                            dest_port: Port(dp),
+                            ttl: TimeToLive(ttl),
+                            round: RoundId(k as usize),
+                            sent,
+                            host,
+                            received: sent + Duration::from_nanos(rtt_ns),
+                            icmp_packet_type,
+                            tos: if tape.chance(500) { Some(TypeOfService(tape.draw(256) as u8)) } else { None },
+                            expected_udp_checksum: csum.map(|c| Checksum(c.0)),
+                            actual_udp_checksum: csum.map(|c| Checksum(c.1)),
+                            extensions: None,
+                        }));
+                    }
+                    1 => out.push(ProbeStatus::Awaited(Probe {
+                        sequence: Sequence(seq),
+                        identifier: TraceId(t.trace_id),
+                        src_port: Port(sp),
+                        dest_port: Port(dp),
+                        ttl: TimeToLive(ttl),
+                        round: RoundId(k as usize),
+                        sent,
+                        flags,
+                    })),
+                    _ => out.push(ProbeStatus::Failed(ProbeFailed {
+                        sequence: Sequence(seq),
+                        identifier: TraceId(t.trace_id),
+                        src_port: Port(sp),
+                        dest_port: Port(dp),
+                        ttl: TimeToLive(ttl),
+                        round: RoundId(k as usize),
+                        sent,
+                    })),
+                }
+                seq = seq.wrapping_add(1);
+            }
+            w.counters.add("reach.synthetic_round", 1);
+            out
+        });
+        let largest = probes
+            .iter()
+            .filter_map(|p| match p {
+                ProbeStatus::Complete(c) => Some(c.ttl.0),
+                _ => None,
+            })
+            .max()
+            .unwrap_or(0);
+        let reason = if k % 3 == 0 { CompletionReason::TargetFound } else { CompletionReason::RoundTimeLimitExceeded };
+        let round = Round::new(&probes, TimeToLive(largest), reason);
+        tracer.verif_apply_round(&round);
+        // snapshots: every round at first, then sparsely (the reference is advanced for all)
+        let want = opts.snapshots && (cfg.dense || k < 24 || k % 41 == 0 || k + 1 == cfg.rounds);
+        let snapshot = if want { Some(tracer.snapshot()) } else { None };
+        let idx = k;
+        let rec = with_world(|w| {
+            w.ev(4, u64::from(largest) * 10 + u64::from(reason == CompletionReason::TargetFound), u64::from(idx));
+            let mut h = simcore::Fnv::default();
+            for p in &probes {
+                match p {
+                    ProbeStatus::Complete(c) => {
+                        h.u8(1);
+                        h.u8(c.ttl.0);
+                    }
+                    ProbeStatus::Awaited(a) => {
+                        h.u8(2);
+                        h.u8(a.ttl.0);
+                    }
+                    ProbeStatus::Failed(f) => {
+                        h.u8(3);
+                        h.u8(f.ttl.0);
+                    }
+                    _ => h.u8(4),
+                }
+            }
+            w.ev(5, h.finish() & 0xffff_ffff, 0);
+            w.round_idx += 1;
+            RoundRec {
+                idx,
+                probes: probes.clone(),
+                largest_ttl: largest,
+                reason,
+                t_cb: clock::now(),
+                reads_cb: clock::reads(),
+                snapshot,
+                attempts_end: 0,
+                wires_end: 0,
+                resps_end: 0,
+                calls_end: 0,
+                readable_marks: [0; 3],
+                ticks_total: 0,
+            }
+        });
+        rounds.borrow_mut().push(rec);
     }
 }
